@@ -1,10 +1,1102 @@
-//! C13 — stub: property not yet claimed.
+//! C13 — graceful shutdown loses no accepted call.
+//!
+//! Drives the REAL `Server::builder().add_service(..).serve_with_incoming_shutdown(incoming, signal)`
+//! (or `serve_with_incoming` in mode `n`) over in-memory `tokio::io::duplex` connections, with real
+//! tonic clients (`Endpoint::connect_with_connector`), on a current-thread runtime with paused time.
+//!
+//! Case grammar (space separated):
+//!   sc[:<generator stream label, not interpreted>] <g|n> b<duplex buffer> p<payload bytes>
+//!      a<0|1 max_connection_age configured> <step>*
+//!      (g = serve_with_incoming_shutdown, n = serve_with_incoming; requests and response messages
+//!       are p bytes; the duplex buffer size sets the transport fragmentation)
+//!   step (optionally suffixed `~<k>`: only k scheduler yields follow instead of a full settle):
+//!     C            offer a connection (index = order of offering) and connect a client over it
+//!     U<c>:<s>     start a unary call on connection c; handler will answer status s (0 = OK + message)
+//!     S<c>:<n>:<s> start a server-streaming call: headers, n messages, then status s
+//!     A<k>         let the handler of call k advance one phase
+//!     G            fire the shutdown signal
+//!     E            end the incoming stream
+//!     Ir | Io      the incoming stream yields an accept error (recoverable kind / other kind)
+//!     D<c>         the client drops connection c (and abandons its calls)
+//!     X<k>         the client abandons call k
+//!     T            virtual time passes max_connection_age
+//!   D, X and T must follow and be quiescent steps.
+//!   After the script: all handlers free-run (drain), quiescent point, then every client is dropped.
+//!
+//! Time = number of quiescent points passed (a quiescent point = the paused-clock runtime went idle:
+//! `sleep(1ms)` only returns once no task is runnable).  Steps joined by `~k` share one instant.
+//!
+//! Observed (times; `-` = never):
+//!   R<resolvedAt>:<open server IOs at that instant (`*` in mode n)>:<ok|err>
+//!   c<i>:<accepted 0|1>:<server IO dropped at>
+//!   k<j>:<handler started 0|1>:<headers 0|1|bad>:<good messages|bad>:<status s<code>|s<code>!|->:<client done at>
+//!        (`s<code>!` = status text is not the handler's; message contents, the `x-k` response
+//!         header and the status text are all checked per call)
+//!   k<j>:0:0:0:ns:-   the server never saw the call (whatever local error the client got)
+//!   hang              the virtual-time watchdog fired
 use crate::common::*;
+use bytes::{Buf, BufMut};
+use std::future::Future;
+use std::pin::Pin;
+use std::sync::{Arc, Mutex};
+use std::task::{Context, Poll};
+use std::time::Duration;
+use tokio::io::{AsyncRead, AsyncWrite, DuplexStream, ReadBuf};
+use tokio::sync::{mpsc, oneshot, Semaphore};
+use tonic::codec::{BufferSettings, Codec, DecodeBuf, Decoder, EncodeBuf, Encoder};
+use tonic::transport::server::Connected;
+use tonic::transport::{Endpoint, Server, Uri};
+use tonic::{Request, Response, Status};
 
-pub fn generate(_tier: &str, _rng: &mut Rng) -> Vec<String> {
-    Vec::new()
+// ---------------------------------------------------------------- script
+
+#[derive(Clone, Debug, PartialEq)]
+enum Op {
+    Conn,
+    Unary(usize, i32),
+    Stream(usize, usize, i32),
+    Adv(usize),
+    Sig,
+    EndIncoming,
+    AcceptErr(bool),
+    DropConn(usize),
+    Cancel(usize),
+    Age,
 }
 
-pub fn execute(_case: &str) -> String {
-    "unclaimed".into()
+#[derive(Clone, Debug)]
+struct Step {
+    op: Op,
+    yields: Option<usize>,
+}
+
+struct Script {
+    graceful: bool,
+    buf: usize,
+    payload: usize,
+    age: bool,
+    steps: Vec<Step>,
+}
+
+fn parse(case: &str) -> Option<Script> {
+    let t: Vec<&str> = case.split(' ').collect();
+    if t.len() < 5 || !t[0].starts_with("sc") {
+        return None;
+    }
+    let graceful = match t[1] {
+        "g" => true,
+        "n" => false,
+        _ => return None,
+    };
+    let buf: usize = t[2].strip_prefix('b')?.parse().ok()?;
+    let payload: usize = t[3].strip_prefix('p')?.parse().ok()?;
+    let age = match t[4] {
+        "a0" => false,
+        "a1" => true,
+        _ => return None,
+    };
+    let mut steps = Vec::new();
+    let (mut nconn, mut ncall) = (0usize, 0usize);
+    for s in &t[5..] {
+        let (body, yields) = match s.split_once('~') {
+            Some((b, y)) => (b, Some(y.parse::<usize>().ok()?)),
+            None => (*s, None),
+        };
+        let (head, rest) = body.split_at(1);
+        let nums: Vec<&str> = if rest.is_empty() { vec![] } else { rest.split(':').collect() };
+        let op = match (head, nums.as_slice()) {
+            ("C", []) => {
+                nconn += 1;
+                Op::Conn
+            }
+            ("U", [c, s]) => {
+                let c: usize = c.parse().ok()?;
+                if c >= nconn {
+                    return None;
+                }
+                ncall += 1;
+                Op::Unary(c, s.parse().ok()?)
+            }
+            ("S", [c, n, s]) => {
+                let c: usize = c.parse().ok()?;
+                if c >= nconn {
+                    return None;
+                }
+                ncall += 1;
+                Op::Stream(c, n.parse().ok()?, s.parse().ok()?)
+            }
+            ("A", [k]) => {
+                let k: usize = k.parse().ok()?;
+                if k >= ncall {
+                    return None;
+                }
+                Op::Adv(k)
+            }
+            ("G", []) => Op::Sig,
+            ("E", []) => Op::EndIncoming,
+            ("I", ["r"]) => Op::AcceptErr(true),
+            ("I", ["o"]) => Op::AcceptErr(false),
+            ("D", [c]) => {
+                let c: usize = c.parse().ok()?;
+                if c >= nconn {
+                    return None;
+                }
+                Op::DropConn(c)
+            }
+            ("X", [k]) => {
+                let k: usize = k.parse().ok()?;
+                if k >= ncall {
+                    return None;
+                }
+                Op::Cancel(k)
+            }
+            ("T", []) => Op::Age,
+            _ => return None,
+        };
+        if matches!(op, Op::DropConn(_) | Op::Cancel(_) | Op::Age) {
+            // these are only meaningful from a quiescent state
+            if yields.is_some() || steps.last().map(|p: &Step| p.yields.is_some()).unwrap_or(false) {
+                return None;
+            }
+        }
+        steps.push(Step { op, yields });
+    }
+    Some(Script { graceful, buf, payload, age, steps })
+}
+
+// ---------------------------------------------------------------- shared observation state
+
+#[derive(Default)]
+struct ConnRec {
+    accepted: bool,
+    closed_at: Option<usize>,
+}
+
+struct CallRec {
+    n: usize, // messages the handler intends to send (unary: 1 if status 0 else 0)
+    status: i32,
+    streaming: bool,
+    gate: Arc<Semaphore>,
+    started: bool,
+    hdr: Option<bool>, // Some(true) good, Some(false) bad
+    msgs: usize,
+    bad: bool,
+    fin: Option<String>,
+    done_at: Option<usize>,
+}
+
+#[derive(Default)]
+struct Shared {
+    step: usize,
+    open: usize,
+    conns: Vec<ConnRec>,
+    calls: Vec<CallRec>,
+    resolved: Option<(usize, usize, bool)>,
+    payload: usize,
+}
+
+type Sh = Arc<Mutex<Shared>>;
+
+fn message(k: usize, j: usize, len: usize) -> Vec<u8> {
+    (0..len).map(|i| (k.wrapping_mul(31) + j.wrapping_mul(7) + i.wrapping_mul(13) + 1) as u8).collect()
+}
+
+const AGE: Duration = Duration::from_secs(3600);
+
+// ---------------------------------------------------------------- server-side IO wrapper
+
+struct SrvIo {
+    inner: DuplexStream,
+    id: usize,
+    sh: Sh,
+}
+
+impl Connected for SrvIo {
+    type ConnectInfo = ();
+    // called by tonic's MakeSvc exactly when the accept loop takes the connection
+    fn connect_info(&self) {
+        let mut g = self.sh.lock().unwrap();
+        if !g.conns[self.id].accepted {
+            g.conns[self.id].accepted = true;
+            g.open += 1;
+        }
+    }
+}
+
+impl Drop for SrvIo {
+    fn drop(&mut self) {
+        let mut g = self.sh.lock().unwrap();
+        let st = g.step;
+        if g.conns[self.id].accepted {
+            g.open -= 1;
+        }
+        g.conns[self.id].closed_at = Some(st);
+    }
+}
+
+impl AsyncRead for SrvIo {
+    fn poll_read(mut self: Pin<&mut Self>, cx: &mut Context<'_>, buf: &mut ReadBuf<'_>) -> Poll<std::io::Result<()>> {
+        Pin::new(&mut self.inner).poll_read(cx, buf)
+    }
+}
+
+impl AsyncWrite for SrvIo {
+    fn poll_write(mut self: Pin<&mut Self>, cx: &mut Context<'_>, buf: &[u8]) -> Poll<std::io::Result<usize>> {
+        Pin::new(&mut self.inner).poll_write(cx, buf)
+    }
+    fn poll_flush(mut self: Pin<&mut Self>, cx: &mut Context<'_>) -> Poll<std::io::Result<()>> {
+        Pin::new(&mut self.inner).poll_flush(cx)
+    }
+    fn poll_shutdown(mut self: Pin<&mut Self>, cx: &mut Context<'_>) -> Poll<std::io::Result<()>> {
+        Pin::new(&mut self.inner).poll_shutdown(cx)
+    }
+}
+
+struct Incoming(mpsc::UnboundedReceiver<Result<SrvIo, std::io::Error>>);
+
+impl futures_core::Stream for Incoming {
+    type Item = Result<SrvIo, std::io::Error>;
+    fn poll_next(mut self: Pin<&mut Self>, cx: &mut Context<'_>) -> Poll<Option<Self::Item>> {
+        self.0.poll_recv(cx)
+    }
+}
+
+// ---------------------------------------------------------------- byte codec
+
+#[derive(Clone, Copy, Default)]
+struct RawCodec;
+#[derive(Clone, Copy)]
+struct RawEnc;
+#[derive(Clone, Copy)]
+struct RawDec;
+
+impl Encoder for RawEnc {
+    type Item = Vec<u8>;
+    type Error = Status;
+    fn encode(&mut self, item: Vec<u8>, dst: &mut EncodeBuf<'_>) -> Result<(), Status> {
+        dst.put_slice(&item);
+        Ok(())
+    }
+    fn buffer_settings(&self) -> BufferSettings {
+        BufferSettings::default()
+    }
+}
+
+impl Decoder for RawDec {
+    type Item = Vec<u8>;
+    type Error = Status;
+    fn decode(&mut self, src: &mut DecodeBuf<'_>) -> Result<Option<Vec<u8>>, Status> {
+        let n = src.remaining();
+        Ok(Some(src.copy_to_bytes(n).to_vec()))
+    }
+    fn buffer_settings(&self) -> BufferSettings {
+        BufferSettings::default()
+    }
+}
+
+impl Codec for RawCodec {
+    type Encode = Vec<u8>;
+    type Decode = Vec<u8>;
+    type Encoder = RawEnc;
+    type Decoder = RawDec;
+    fn encoder(&mut self) -> RawEnc {
+        RawEnc
+    }
+    fn decoder(&mut self) -> RawDec {
+        RawDec
+    }
+}
+
+// ---------------------------------------------------------------- the gated service
+
+#[derive(Clone)]
+struct GateSvc {
+    sh: Sh,
+}
+
+impl tonic::server::NamedService for GateSvc {
+    const NAME: &'static str = "verif.Gate";
+}
+
+type BoxFut<T> = Pin<Box<dyn Future<Output = T> + Send + 'static>>;
+
+fn call_id(req: &[u8]) -> usize {
+    let mut b = [0u8; 4];
+    b.copy_from_slice(&req[..4]);
+    u32::from_be_bytes(b) as usize
+}
+
+fn status_of(k: usize, code: i32) -> Status {
+    Status::new(tonic::Code::from_i32(code), format!("e{}", k))
+}
+
+struct UnarySvc(Sh);
+impl tonic::server::UnaryService<Vec<u8>> for UnarySvc {
+    type Response = Vec<u8>;
+    type Future = BoxFut<Result<Response<Vec<u8>>, Status>>;
+    fn call(&mut self, request: Request<Vec<u8>>) -> Self::Future {
+        let sh = self.0.clone();
+        Box::pin(async move {
+            let k = call_id(request.get_ref());
+            let (gate, status, payload) = {
+                let mut g = sh.lock().unwrap();
+                g.calls[k].started = true;
+                (g.calls[k].gate.clone(), g.calls[k].status, g.payload)
+            };
+            gate.acquire().await.unwrap().forget();
+            if status == 0 {
+                let mut r = Response::new(message(k, 0, payload));
+                r.metadata_mut().insert("x-k", k.to_string().parse().unwrap());
+                Ok(r)
+            } else {
+                Err(status_of(k, status))
+            }
+        })
+    }
+}
+
+struct GatedStream {
+    k: usize,
+    j: usize,
+    n: usize,
+    status: i32,
+    payload: usize,
+    done: bool,
+    wait: Option<BoxFut<()>>,
+    gate: Arc<Semaphore>,
+}
+
+impl futures_core::Stream for GatedStream {
+    type Item = Result<Vec<u8>, Status>;
+    fn poll_next(mut self: Pin<&mut Self>, cx: &mut Context<'_>) -> Poll<Option<Self::Item>> {
+        if self.done {
+            return Poll::Ready(None);
+        }
+        if self.wait.is_none() {
+            let gate = self.gate.clone();
+            self.wait = Some(Box::pin(async move {
+                gate.acquire().await.unwrap().forget();
+            }));
+        }
+        match self.wait.as_mut().unwrap().as_mut().poll(cx) {
+            Poll::Pending => Poll::Pending,
+            Poll::Ready(()) => {
+                self.wait = None;
+                if self.j < self.n {
+                    let m = message(self.k, self.j, self.payload);
+                    self.j += 1;
+                    Poll::Ready(Some(Ok(m)))
+                } else {
+                    self.done = true;
+                    if self.status == 0 {
+                        Poll::Ready(None)
+                    } else {
+                        Poll::Ready(Some(Err(status_of(self.k, self.status))))
+                    }
+                }
+            }
+        }
+    }
+}
+
+struct StreamSvc(Sh);
+impl tonic::server::ServerStreamingService<Vec<u8>> for StreamSvc {
+    type Response = Vec<u8>;
+    type ResponseStream = GatedStream;
+    type Future = BoxFut<Result<Response<GatedStream>, Status>>;
+    fn call(&mut self, request: Request<Vec<u8>>) -> Self::Future {
+        let sh = self.0.clone();
+        Box::pin(async move {
+            let k = call_id(request.get_ref());
+            let (gate, status, payload, n) = {
+                let mut g = sh.lock().unwrap();
+                g.calls[k].started = true;
+                (g.calls[k].gate.clone(), g.calls[k].status, g.payload, g.calls[k].n)
+            };
+            gate.acquire().await.unwrap().forget();
+            let mut r = Response::new(GatedStream { k, j: 0, n, status, payload, done: false, wait: None, gate });
+            r.metadata_mut().insert("x-k", k.to_string().parse().unwrap());
+            Ok(r)
+        })
+    }
+}
+
+impl tower_service::Service<http::Request<tonic::body::Body>> for GateSvc {
+    type Response = http::Response<tonic::body::Body>;
+    type Error = std::convert::Infallible;
+    type Future = BoxFut<Result<Self::Response, Self::Error>>;
+    fn poll_ready(&mut self, _cx: &mut Context<'_>) -> Poll<Result<(), Self::Error>> {
+        Poll::Ready(Ok(()))
+    }
+    fn call(&mut self, req: http::Request<tonic::body::Body>) -> Self::Future {
+        let sh = self.sh.clone();
+        match req.uri().path() {
+            "/verif.Gate/Unary" => Box::pin(async move {
+                let mut grpc = tonic::server::Grpc::new(RawCodec);
+                Ok(grpc.unary(UnarySvc(sh), req).await)
+            }),
+            "/verif.Gate/Stream" => Box::pin(async move {
+                let mut grpc = tonic::server::Grpc::new(RawCodec);
+                Ok(grpc.server_streaming(StreamSvc(sh), req).await)
+            }),
+            _ => Box::pin(async move {
+                let mut response = http::Response::new(tonic::body::Body::default());
+                response.headers_mut().insert(Status::GRPC_STATUS, (tonic::Code::Unimplemented as i32).into());
+                response.headers_mut().insert(http::header::CONTENT_TYPE, tonic::metadata::GRPC_CONTENT_TYPE);
+                Ok(response)
+            }),
+        }
+    }
+}
+
+// ---------------------------------------------------------------- client side
+
+fn status_token(k: usize, st: &Status) -> String {
+    let code = st.code() as i32;
+    if st.message() == format!("e{}", k) {
+        format!("s{}", code)
+    } else {
+        format!("s{}!", code)
+    }
+}
+
+fn finish(sh: &Sh, k: usize, tok: String) {
+    let mut g = sh.lock().unwrap();
+    let st = g.step;
+    g.calls[k].fin = Some(tok);
+    g.calls[k].done_at = Some(st);
+}
+
+fn check_hdr(k: usize, md: &tonic::metadata::MetadataMap) -> bool {
+    md.get("x-k").and_then(|v| v.to_str().ok()).map(|v| v == k.to_string()).unwrap_or(false)
+}
+
+async fn client_call(sh: Sh, ch: tonic::transport::Channel, k: usize) {
+    let (streaming, payload) = {
+        let g = sh.lock().unwrap();
+        (g.calls[k].streaming, g.payload)
+    };
+    let mut grpc = tonic::client::Grpc::new(ch);
+    if let Err(e) = grpc.ready().await {
+        let _ = e;
+        finish(&sh, k, "s14!".into());
+        return;
+    }
+    let mut body = (k as u32).to_be_bytes().to_vec();
+    // the request is as large as the responses, so that big-payload scenarios also have the
+    // request upload (and its flow control) in flight around the signal
+    body.extend(std::iter::repeat(0xA5u8).take(payload));
+    if !streaming {
+        let path = http::uri::PathAndQuery::from_static("/verif.Gate/Unary");
+        match grpc.unary::<Vec<u8>, Vec<u8>, _>(Request::new(body), path, RawCodec).await {
+            Ok(resp) => {
+                let good_hdr = check_hdr(k, resp.metadata());
+                let good = resp.get_ref() == &message(k, 0, payload);
+                {
+                    let mut g = sh.lock().unwrap();
+                    g.calls[k].hdr = Some(good_hdr);
+                    if good {
+                        g.calls[k].msgs += 1;
+                    } else {
+                        g.calls[k].bad = true;
+                    }
+                }
+                finish(&sh, k, "s0".into());
+            }
+            Err(st) => finish(&sh, k, status_token(k, &st)),
+        }
+    } else {
+        let path = http::uri::PathAndQuery::from_static("/verif.Gate/Stream");
+        match grpc.server_streaming::<Vec<u8>, Vec<u8>, _>(Request::new(body), path, RawCodec).await {
+            Ok(resp) => {
+                let good_hdr = check_hdr(k, resp.metadata());
+                sh.lock().unwrap().calls[k].hdr = Some(good_hdr);
+                let mut s = resp.into_inner();
+                loop {
+                    match s.message().await {
+                        Ok(Some(m)) => {
+                            let mut g = sh.lock().unwrap();
+                            let j = g.calls[k].msgs;
+                            if !g.calls[k].bad && m == message(k, j, payload) {
+                                g.calls[k].msgs += 1;
+                            } else {
+                                g.calls[k].bad = true;
+                            }
+                        }
+                        Ok(None) => {
+                            finish(&sh, k, "s0".into());
+                            break;
+                        }
+                        Err(st) => {
+                            finish(&sh, k, status_token(k, &st));
+                            break;
+                        }
+                    }
+                }
+            }
+            Err(st) => finish(&sh, k, status_token(k, &st)),
+        }
+    }
+}
+
+// ---------------------------------------------------------------- scenario runner
+
+async fn settle() {
+    tokio::time::sleep(Duration::from_millis(1)).await;
+}
+
+async fn after_step(y: Option<usize>) {
+    match y {
+        None => settle().await,
+        Some(k) => {
+            for _ in 0..k {
+                tokio::task::yield_now().await;
+            }
+        }
+    }
+}
+
+async fn run(sc: Script) -> String {
+    let sh: Sh = Arc::new(Mutex::new(Shared { payload: sc.payload, ..Default::default() }));
+    let (inc_tx, inc_rx) = mpsc::unbounded_channel();
+    let mut inc_tx = Some(inc_tx);
+    let (sig_tx, sig_rx) = oneshot::channel::<()>();
+    let mut sig_tx = Some(sig_tx);
+    let (keep_tx, keep_rx) = oneshot::channel::<()>(); // keeps an unfired signal pending for ever
+
+    let mut builder = Server::builder();
+    if sc.age {
+        builder = builder.max_connection_age(AGE);
+    }
+    let router = builder.add_service(GateSvc { sh: sh.clone() });
+    let incoming = Incoming(inc_rx);
+    let shs = sh.clone();
+    let graceful = sc.graceful;
+    let sc_graceful = sc.graceful;
+    let serve_task = tokio::spawn(async move {
+        let r = if graceful {
+            router
+                .serve_with_incoming_shutdown(incoming, async move {
+                    if sig_rx.await.is_err() {
+                        let _ = keep_rx.await;
+                        std::future::pending::<()>().await;
+                    }
+                })
+                .await
+        } else {
+            drop(sig_rx);
+            drop(keep_rx);
+            router.serve_with_incoming(incoming).await
+        };
+        let mut g = shs.lock().unwrap();
+        let (st, open) = (g.step, g.open);
+        g.resolved = Some((st, open, r.is_ok()));
+    });
+
+    let mut channels: Vec<Option<tonic::transport::Channel>> = Vec::new();
+    let mut call_tasks: Vec<(usize, tokio::task::JoinHandle<()>)> = Vec::new(); // (conn, task) by call index
+
+    let mut t = 0usize; // time = number of quiescent points passed
+    for step in sc.steps.iter() {
+        sh.lock().unwrap().step = t;
+        match step.op.clone() {
+            Op::Conn => {
+                let (cli, srv) = tokio::io::duplex(sc.buf);
+                let id = {
+                    let mut g = sh.lock().unwrap();
+                    g.conns.push(ConnRec::default());
+                    g.conns.len() - 1
+                };
+                if let Some(tx) = &inc_tx {
+                    let _ = tx.send(Ok(SrvIo { inner: srv, id, sh: sh.clone() }));
+                } else {
+                    drop(srv);
+                }
+                let mut cli = Some(cli);
+                let r = Endpoint::from_static("http://[::]:50051")
+                    .connect_with_connector(tower::service_fn(move |_: Uri| {
+                        let c = cli.take();
+                        async move {
+                            match c {
+                                Some(c) => Ok(hyper_util::rt::TokioIo::new(c)),
+                                None => Err(std::io::Error::other("connection already used")),
+                            }
+                        }
+                    }))
+                    .await;
+                channels.push(r.ok());
+            }
+            Op::Unary(c, s) | Op::Stream(c, _, s) => {
+                let (streaming, n) = match step.op {
+                    Op::Stream(_, n, _) => (true, n),
+                    _ => (false, if s == 0 { 1 } else { 0 }),
+                };
+                let k = {
+                    let mut g = sh.lock().unwrap();
+                    g.calls.push(CallRec {
+                        n,
+                        status: s,
+                        streaming,
+                        gate: Arc::new(Semaphore::new(0)),
+                        started: false,
+                        hdr: None,
+                        msgs: 0,
+                        bad: false,
+                        fin: None,
+                        done_at: None,
+                    });
+                    g.calls.len() - 1
+                };
+                match channels[c].clone() {
+                    Some(ch) => {
+                        let h = tokio::spawn(client_call(sh.clone(), ch, k));
+                        call_tasks.push((c, h));
+                    }
+                    None => {
+                        finish(&sh, k, "s14!".into());
+                        call_tasks.push((c, tokio::spawn(async {})));
+                    }
+                }
+            }
+            Op::Adv(k) => {
+                let gate = sh.lock().unwrap().calls[k].gate.clone();
+                gate.add_permits(1);
+            }
+            Op::Sig => {
+                if let Some(tx) = sig_tx.take() {
+                    let _ = tx.send(());
+                }
+            }
+            Op::EndIncoming => {
+                inc_tx = None;
+            }
+            Op::AcceptErr(recoverable) => {
+                if let Some(tx) = &inc_tx {
+                    let kind = if recoverable { std::io::ErrorKind::ConnectionReset } else { std::io::ErrorKind::Other };
+                    let _ = tx.send(Err(std::io::Error::new(kind, "accept error")));
+                }
+            }
+            Op::DropConn(c) => {
+                for (cc, h) in call_tasks.iter() {
+                    if *cc == c {
+                        h.abort();
+                    }
+                }
+                channels[c] = None;
+            }
+            Op::Cancel(k) => {
+                call_tasks[k].1.abort();
+            }
+            Op::Age => {
+                tokio::time::sleep(AGE).await;
+            }
+        }
+        after_step(step.yields).await;
+        if step.yields.is_none() {
+            t += 1;
+        }
+    }
+    let nsteps = t;
+    // drain: every handler runs freely
+    sh.lock().unwrap().step = nsteps;
+    {
+        let g = sh.lock().unwrap();
+        for c in g.calls.iter() {
+            c.gate.add_permits(1 << 20);
+        }
+    }
+    settle().await;
+    // every client goes away
+    sh.lock().unwrap().step = nsteps + 1;
+    for (_, h) in call_tasks.iter() {
+        h.abort();
+    }
+    channels.clear();
+    settle().await;
+    sh.lock().unwrap().step = nsteps + 2;
+    serve_task.abort();
+    drop(inc_tx);
+    drop(sig_tx);
+    drop(keep_tx);
+    settle().await;
+
+    let g = sh.lock().unwrap();
+    let idx = |o: Option<usize>| o.map(|v| v.to_string()).unwrap_or_else(|| "-".into());
+    let mut out = Vec::new();
+    match g.resolved {
+        Some((st, open, ok)) if st <= nsteps + 1 => {
+            // without a shutdown signal nothing is claimed about connections still open at that
+            // instant (and the count depends on scheduling): not reported
+            let open = if sc_graceful { open.to_string() } else { "*".to_string() };
+            out.push(format!("R{}:{}:{}", st, open, if ok { "ok" } else { "err" }))
+        }
+        _ => out.push("R-:-:-".into()),
+    }
+    for (i, c) in g.conns.iter().enumerate() {
+        let closed = c.closed_at.filter(|s| c.accepted && *s <= nsteps + 1);
+        out.push(format!("c{}:{}:{}", i, c.accepted as u8, idx(closed)));
+    }
+    for (j, c) in g.calls.iter().enumerate() {
+        let hdr = match c.hdr {
+            None => "0",
+            Some(true) => "1",
+            Some(false) => "bad",
+        };
+        let msgs = if c.bad { "bad".to_string() } else { c.msgs.to_string() };
+        let done = c.done_at.filter(|s| *s <= nsteps + 1);
+        let fin = if done.is_some() { c.fin.clone().unwrap_or_else(|| "-".into()) } else { "-".into() };
+        if !c.started && c.hdr.is_none() && c.msgs == 0 && !c.bad {
+            // the server never saw the call: whatever local error (or nothing) the client got
+            out.push(format!("k{}:0:0:0:ns:-", j));
+        } else {
+            out.push(format!("k{}:{}:{}:{}:{}:{}", j, c.started as u8, hdr, msgs, fin, idx(done)));
+        }
+    }
+    out.join(" ")
+}
+
+pub fn execute(case: &str) -> String {
+    let sc = match parse(case) {
+        Some(s) => s,
+        None => return "bad-case".into(),
+    };
+    let rt = paused_rt();
+    rt.block_on(async move {
+        match tokio::time::timeout(Duration::from_secs(1_000_000), run(sc)).await {
+            Ok(s) => s,
+            Err(_) => "hang".into(),
+        }
+    })
+}
+
+// ---------------------------------------------------------------- generators
+
+const BUFS: [usize; 9] = [24, 25, 32, 33, 64, 100, 1024, 16384, 65536];
+// payload sizes: around the gRPC prefix, the default h2 frame size (16384) and the default
+// flow-control window (65535)
+const PAYLOADS_SMALL: [usize; 6] = [0, 1, 10, 11, 300, 1000];
+const PAYLOADS_BIG: [usize; 8] = [16379, 16380, 16384, 20000, 65530, 65535, 65536, 70000];
+const CODES: [i32; 4] = [0, 0, 5, 13];
+
+#[derive(Clone)]
+struct Gen {
+    ops: Vec<String>,
+    nconn: usize,
+    // per call: (conn, phases needed, phases released so far)
+    calls: Vec<(usize, usize, usize)>,
+}
+
+impl Gen {
+    fn new() -> Self {
+        Gen { ops: Vec::new(), nconn: 0, calls: Vec::new() }
+    }
+    fn conn(&mut self) -> usize {
+        self.ops.push("C".into());
+        self.nconn += 1;
+        self.nconn - 1
+    }
+    fn unary(&mut self, c: usize, s: i32) -> usize {
+        self.ops.push(format!("U{}:{}", c, s));
+        self.calls.push((c, 1, 0));
+        self.calls.len() - 1
+    }
+    fn stream(&mut self, c: usize, n: usize, s: i32) -> usize {
+        self.ops.push(format!("S{}:{}:{}", c, n, s));
+        self.calls.push((c, n + 2, 0));
+        self.calls.len() - 1
+    }
+    fn adv(&mut self, k: usize) {
+        self.ops.push(format!("A{}", k));
+        self.calls[k].2 += 1;
+    }
+    fn unfinished(&self) -> Vec<usize> {
+        (0..self.calls.len()).filter(|k| self.calls[*k].2 < self.calls[*k].1).collect()
+    }
+}
+
+/// `class` only labels the generator stream in the evidence; it is not interpreted
+fn header(class: &str, mode: &str, buf: usize, payload: usize, age: bool) -> String {
+    format!("sc:{} {} b{} p{} a{}", class, mode, buf, payload, age as u8)
+}
+
+fn pick_sizes(rng: &mut Rng, ncalls: usize) -> (usize, usize) {
+    let buf = *rng.pick(&BUFS);
+    let payload = if ncalls <= 3 && rng.chance(1, 5) { *rng.pick(&PAYLOADS_BIG) } else { *rng.pick(&PAYLOADS_SMALL) };
+    (buf, payload)
+}
+
+/// A random base scenario without any shutdown trigger: connections, calls, handler phases, in a
+/// random interleaving; every op is one token.
+fn base_scenario(rng: &mut Rng, max_conn: usize, max_calls: usize, finish: bool) -> Gen {
+    let mut g = Gen::new();
+    let nconn = rng.range(1, max_conn as u64) as usize;
+    let ncalls = rng.range(1, max_calls as u64) as usize;
+    g.conn();
+    let mut issued = 0;
+    let mut guard = 0;
+    while guard < 200 {
+        guard += 1;
+        let unf = g.unfinished();
+        let can_conn = g.nconn < nconn;
+        let can_call = issued < ncalls;
+        if !can_conn && !can_call && (unf.is_empty() || !finish && rng.chance(1, 4)) {
+            break;
+        }
+        match rng.below(4) {
+            0 if can_conn => {
+                g.conn();
+            }
+            1 if can_call => {
+                let c = rng.below(g.nconn as u64) as usize;
+                let s = *rng.pick(&CODES);
+                if rng.chance(1, 2) {
+                    g.unary(c, s);
+                } else {
+                    let n = *rng.pick(&[0usize, 1, 2, 2, 3]);
+                    g.stream(c, n, s);
+                }
+                issued += 1;
+            }
+            _ => {
+                if !unf.is_empty() {
+                    let k = *rng.pick(&unf);
+                    g.adv(k);
+                }
+            }
+        }
+    }
+    g
+}
+
+/// insert `tok` (possibly several tokens) at position `at`
+fn insert_at(ops: &[String], at: usize, toks: &[String]) -> Vec<String> {
+    let mut v = ops[..at].to_vec();
+    v.extend_from_slice(toks);
+    v.extend_from_slice(&ops[at..]);
+    v
+}
+
+fn late_probe(nconn: usize) -> Vec<String> {
+    // a connection offered after the signal, and a call on it
+    vec!["C".into(), format!("U{}:0", nconn)]
+}
+
+/// mark some steps as non-quiescent (`~k`), never ones that need a quiescent state
+fn add_races(ops: &[String], rng: &mut Rng, density: u64) -> Vec<String> {
+    let needs_quiet = |t: &String| t.starts_with('D') || t.starts_with('X') || t == "T";
+    let mut out = Vec::new();
+    for (i, t) in ops.iter().enumerate() {
+        let next_quiet = ops.get(i + 1).map(needs_quiet).unwrap_or(false);
+        if !needs_quiet(t) && !next_quiet && rng.chance(density, 10) {
+            let k = *rng.pick(&[0u64, 0, 0, 1, 1, 2, 5]);
+            out.push(format!("{}~{}", t, k));
+        } else {
+            out.push(t.clone());
+        }
+    }
+    out
+}
+
+fn corpus() -> Vec<String> {
+    let mut out = Vec::new();
+    // witnesses of the accept-after-signal race in the unrepaired accept loop (each is decided by
+    // one coin of `select!`, hence the repetition over sizes)
+    for b in BUFS {
+        for k in [0, 0, 0] {
+            out.push(format!("sc:corpus g b{} p10 a0 G~{} C", b, k));
+            out.push(format!("sc:corpus g b{} p10 a0 C U0:0 G~{} C U1:0 A0", b, k));
+            out.push(format!("sc:corpus g b{} p10 a0 G~0 C~0 C~0 C", b));
+        }
+    }
+    for s in [
+        "sc:corpus g b1024 p10 a0 C U0:0 G A0",
+        "sc:corpus g b1024 p10 a0 C U0:0 A0 G",
+        "sc:corpus g b1024 p10 a0 C G U0:0",
+        "sc:corpus g b1024 p10 a0 C S0:2:0 A0 G A0 A0 A0",
+        "sc:corpus g b1024 p10 a0 C S0:2:5 A0 A0 G A0 A0 C U1:0",
+        "sc:corpus g b1024 p10 a0 C S0:2:0 A0 G C U1:0 A0 A0 A0",
+        "sc:corpus g b1024 p10 a0 C C U0:0 U1:0 G A0 A1",
+        "sc:corpus g b1024 p10 a0 C U0:0 E A0",
+        "sc:corpus n b1024 p10 a0 C U0:0 E A0",
+        "sc:corpus g b1024 p10 a0 C U0:0",
+        "sc:corpus g b1024 p10 a0 C U0:0 D0 G",
+        "sc:corpus g b1024 p10 a1 C U0:0 T C U0:0 U1:0 A0",
+        "sc:corpus g b1024 p10 a0 Io C Ir U0:0 G",
+        "sc:corpus g b1024 p10 a0 C S0:2:0 A0 X0 G",
+        "sc:corpus g b32 p70000 a0 C S0:2:0 U0:0 A0 A0 G A1 A0 A0",
+        "sc:corpus g b1024 p10 a0 C U0:0~0 G A0",
+        "sc:corpus g b1024 p10 a0 C~0 U0:0~0 G A0",
+        "sc:corpus g b1024 p10 a0 C G~0 U0:0 A0",
+        "sc:corpus g b24 p10 a0 C U0:0~0 G A0",
+        "sc:corpus g b1024 p10 a0 G",
+        "sc:corpus g b1024 p10 a0 E",
+        "sc:corpus n b1024 p10 a0 E",
+        "sc:corpus g b1024 p10 a0 G E G E C",
+        "sc:corpus g b1024 p10 a0",
+    ] {
+        out.push(s.to_string());
+    }
+    out
+}
+
+/// the signal at every phase boundary of every call: all insertion points of `G` (and `E`) into a
+/// scenario whose handler phases are spelled out one per step
+fn placements(out: &mut Vec<String>, rng: &mut Rng, g: &Gen, mode: &str, trig: &str, probe: bool, races: u64) {
+    let (buf, payload) = pick_sizes(rng, g.calls.len());
+    let age = trig == "T";
+    for at in 0..=g.ops.len() {
+        let mut ops = insert_at(&g.ops, at, &[trig.to_string()]);
+        if probe {
+            // the late connection goes in somewhere after the trigger
+            // (after the last base connection, so that connection indices stay as they are)
+            let last_c = ops.iter().rposition(|t| t == "C").map(|i| i + 1).unwrap_or(0);
+            let lo = (at + 1).max(last_c);
+            let pos = rng.range(lo as u64, ops.len() as u64) as usize;
+            ops = insert_at(&ops, pos, &late_probe(g.nconn));
+        }
+        if races > 0 {
+            ops = add_races(&ops, rng, races);
+        }
+        let class = format!("place{}{}{}", trig, if mode == "n" { "-nosignal" } else { "" }, if races > 0 { "-race" } else { "" });
+        out.push(format!("{} {}", header(&class, mode, buf, payload, age), ops.join(" ")));
+    }
+}
+
+fn structured(out: &mut Vec<String>, rng: &mut Rng, n: usize, max_conn: usize, max_calls: usize) {
+    for i in 0..n {
+        let finish = rng.chance(3, 4);
+        let g = base_scenario(rng, max_conn, max_calls, finish);
+        match i % 10 {
+            // max_connection_age elapsing at every phase boundary (then the signal at the end)
+            8 => placements(out, rng, &g, "g", "T", false, 0),
+            9 => {
+                let mut g2 = g.clone();
+                g2.ops.push("G".into());
+                placements(out, rng, &g2, "g", "T", false, 0)
+            }
+            0 | 1 => placements(out, rng, &g, "g", "G", true, 0),
+            2 => placements(out, rng, &g, "g", "G", false, 0),
+            3 => {
+                let probe = rng.chance(1, 2);
+                placements(out, rng, &g, "g", "E", probe, 0)
+            }
+            4 => placements(out, rng, &g, "n", "E", false, 0),
+            5 | 6 => placements(out, rng, &g, "g", "G", true, 3),
+            _ => placements(out, rng, &g, "g", "E", true, 2),
+        }
+    }
+}
+
+/// clients that leave or cancel, accept errors, connection age, repeated and useless operations
+fn disturbed(out: &mut Vec<String>, rng: &mut Rng, n: usize, max_conn: usize, max_calls: usize) {
+    for _ in 0..n {
+        let finish = rng.chance(1, 2);
+        let g = base_scenario(rng, max_conn, max_calls, finish);
+        let age = rng.chance(1, 3);
+        let mode = if rng.chance(1, 6) { "n" } else { "g" };
+        let mut ops = g.ops.clone();
+        let extra = rng.range(1, 5);
+        for _ in 0..extra {
+            let at = rng.range(0, ops.len() as u64) as usize;
+            // how many connections / calls exist before position `at`
+            let nc = ops[..at].iter().filter(|t| t.as_str() == "C").count();
+            let nk = ops[..at].iter().filter(|t| t.starts_with('U') || t.starts_with('S')).count();
+            let tok: Option<String> = match rng.below(10) {
+                0 | 1 => Some("G".into()),
+                2 => Some("E".into()),
+                3 if nc > 0 => Some(format!("D{}", rng.below(nc as u64))),
+                4 if nk > 0 => Some(format!("X{}", rng.below(nk as u64))),
+                5 if age => Some("T".into()),
+                6 => Some(if rng.chance(1, 2) { "Ir".into() } else { "Io".into() }),
+                7 if nk > 0 => Some(format!("A{}", rng.below(nk as u64))),
+                8 => Some("G".into()),
+                _ => None,
+            };
+            if let Some(t) = tok {
+                ops = insert_at(&ops, at, &[t]);
+            }
+        }
+        if rng.chance(1, 3) {
+            // a late connection and a call on it at the very end
+            let nc = ops.iter().filter(|t| t.as_str() == "C").count();
+            ops.extend(late_probe(nc));
+        }
+        let racy = rng.chance(1, 4);
+        if racy {
+            ops = add_races(&ops, rng, 2);
+        }
+        let (buf, payload) = pick_sizes(rng, g.calls.len());
+        let class = format!("disturbed{}{}", if mode == "n" { "-nosignal" } else { "" }, if racy { "-race" } else { "" });
+        out.push(format!("{} {}", header(&class, mode, buf, payload, age), ops.join(" ")));
+    }
+}
+
+/// thorough tier: every scenario up to a length bound over a small alphabet (one connection
+/// pre-offered or not, two calls at most)
+fn exhaustive(out: &mut Vec<String>, max_len: usize) {
+    let alphabet = ["C", "U", "S", "A0", "A1", "G", "E", "D0", "X0"];
+    fn rec(out: &mut Vec<String>, alphabet: &[&str], cur: &mut Vec<String>, nconn: usize, ncall: usize, left: usize) {
+        if !cur.is_empty() {
+            out.push(format!("sc:exhaustive g b1024 p10 a0 {}", cur.join(" ")));
+        }
+        if left == 0 {
+            return;
+        }
+        for a in alphabet {
+            let (tok, nc, nk) = match *a {
+                "C" if nconn < 2 => ("C".to_string(), nconn + 1, ncall),
+                "U" if nconn > 0 && ncall < 2 => (format!("U{}:0", nconn - 1), nconn, ncall + 1),
+                "S" if nconn > 0 && ncall < 2 => (format!("S{}:1:5", nconn - 1), nconn, ncall + 1),
+                "A0" if ncall > 0 => ("A0".to_string(), nconn, ncall),
+                "A1" if ncall > 1 => ("A1".to_string(), nconn, ncall),
+                "G" | "E" => (a.to_string(), nconn, ncall),
+                "D0" if nconn > 0 => ("D0".to_string(), nconn, ncall),
+                "X0" if ncall > 0 => ("X0".to_string(), nconn, ncall),
+                _ => continue,
+            };
+            cur.push(tok);
+            rec(out, alphabet, cur, nc, nk, left - 1);
+            cur.pop();
+        }
+    }
+    let mut cur = Vec::new();
+    rec(out, &alphabet, &mut cur, 0, 0, max_len);
+}
+
+/// the same scenarios with no quiescent point between steps: all `~0`, and a random mix
+fn racy_variants(out: &mut Vec<String>, rng: &mut Rng, cases: &[String]) {
+    for c in cases {
+        let toks: Vec<&str> = c.split(' ').collect();
+        let ops: Vec<String> = toks[5..].iter().map(|t| t.to_string()).collect();
+        if ops.iter().any(|t| t.starts_with('D') || t.starts_with('X')) {
+            continue;
+        }
+        let all0: Vec<String> = ops.iter().map(|t| format!("{}~0", t)).collect();
+        let buf = *rng.pick(&BUFS);
+        out.push(format!("sc:exhaustive-race g b{} p10 a0 {}", buf, all0.join(" ")));
+        let mixed = add_races(&ops, rng, 5);
+        out.push(format!("sc:exhaustive-race g b{} p10 a0 {}", buf, mixed.join(" ")));
+    }
+}
+
+pub fn generate(tier: &str, rng: &mut Rng) -> Vec<String> {
+    let thorough = tier == "thorough";
+    let mut out = corpus();
+    if thorough {
+        structured(&mut out, rng, 10000, 4, 6);
+        disturbed(&mut out, rng, 90000, 4, 6);
+        exhaustive(&mut out, 6);
+        // every scenario up to length 5 again, with every step / random steps non-quiescent
+        let mut ex = Vec::new();
+        exhaustive(&mut ex, 5);
+        racy_variants(&mut out, rng, &ex);
+    } else {
+        structured(&mut out, rng, 160, 3, 4);
+        disturbed(&mut out, rng, 800, 3, 4);
+        exhaustive(&mut out, 4);
+        let mut ex = Vec::new();
+        exhaustive(&mut ex, 3);
+        racy_variants(&mut out, rng, &ex);
+    }
+    out
 }
